@@ -16,6 +16,18 @@ pub fn create_db(
     client: &Client,
     strategy: ConsensuStrategy,
 ) -> Response {
+    // The name becomes the name of the database's files and travels between the nodes in
+    // space and '|' separated lists
+    if name.is_empty()
+        || name.len() > 200
+        || name
+            .chars()
+            .any(|c| c == '/' || c == '|' || c.is_whitespace() || c.is_control())
+    {
+        return Response::Error {
+            msg: String::from("Invalid database name"),
+        };
+    }
     if dbs.is_primary() || client.is_primary() {
         log::debug!(
             "Request::CreateDb - Creating database {} with strategy {:?}",
